@@ -312,7 +312,12 @@ func c15Prod(dims []int) int {
 
 // c15Structured builds a mostly valid datagram with TLV-level mutations; it returns the bytes and the
 // generator's idea of (frames, nchan) used to aim the sample reads.
-func c15Structured(r *Rng, tier string) ([]byte, int, int) {
+//
+// wantTS is the generator's own knowledge of the timestamp counter it wrote ("-1" none, "?" not known because a
+// mutation may have touched the TLVs): the oracle holds the decoded Timestamp() against it, not against the model.
+func c15Structured(r *Rng, tier string) (buf []byte, frames int, nch int, wantTS string) {
+	wantTS = "-1"
+	tsKnown := true
 	ver := byte(r.U64())
 	src, seq := uint32(r.U64()), uint32(r.U64())
 	if r.Chance(20) {
@@ -371,20 +376,35 @@ func c15Structured(r *Rng, tier string) ([]byte, int, int) {
 			body := []byte{byte(nbits), byte(r.Pick(0xf5, 0xf7, 0, 3, 0x80))}
 			body = append(body, c15be16(r.Pick(0, 1, 4, 10000, 65535))...)
 			body = append(body, c15be16(r.Pick(0, 1, 25, 65535))...)
-			t := r.U64()
-			if r.Chance(20) {
-				t = uint64(r.Pick(0, 1)) - uint64(r.Pick(0, 1))
-			}
+			t := c15Counter(r)
 			body = append(body, c15be64(t)...)
+			switch {
+			case nbits < 64:
+				wantTS = fmt.Sprint(t & (uint64(1)<<uint(nbits) - 1))
+			case nbits == 64:
+				wantTS = fmt.Sprint(t)
+			}
 			if r.Chance(5) {
 				body = body[:6] // one unit only: too short for a timestamp with unit
+				tsKnown = false // (the next mutation may complete it again with other bytes)
 			}
 			if r.Chance(5) {
 				body = append(body, c15Rand(r, 8)...) // three units
 			}
 			tlvs = append(tlvs, c15TLV(0x13, body))
 		} else {
-			tlvs = append(tlvs, c15TLV(0x11, c15Rand(r, 6)))
+			// timestamp without unit: 48 bits, the low 16 bits of the counter are implied zero
+			body := c15Rand(r, 6)
+			if r.Chance(40) {
+				c := c15Counter(r) >> 16
+				body = []byte{byte(c >> 40), byte(c >> 32), byte(c >> 24), byte(c >> 16), byte(c >> 8), byte(c)}
+			}
+			var c uint64
+			for _, x := range body {
+				c = c<<8 | uint64(x)
+			}
+			wantTS = fmt.Sprint(c << 16)
+			tlvs = append(tlvs, c15TLV(0x11, body))
 		}
 	}
 	if r.Chance(90) {
@@ -429,6 +449,7 @@ func c15Structured(r *Rng, tier string) ([]byte, int, int) {
 		}
 	}
 	if len(tlvs) > 0 && r.Chance(12) { // duplicate or drop
+		tsKnown = false
 		k := r.Intn(len(tlvs))
 		if r.Bool() {
 			tlvs = append(tlvs, tlvs[k])
@@ -437,6 +458,7 @@ func c15Structured(r *Rng, tier string) ([]byte, int, int) {
 		}
 	}
 	if len(tlvs) > 0 && r.Chance(8) { // wrong length byte in one TLV
+		tsKnown = false
 		k := r.Intn(len(tlvs))
 		t := append([]byte{}, tlvs[k]...)
 		t[1] = byte(r.Pick(0, int(t[1])+1, int(t[1])-1, 255, 31))
@@ -444,10 +466,12 @@ func c15Structured(r *Rng, tier string) ([]byte, int, int) {
 	}
 	b := c15Packet(ver, src, seq, tlvs, payload)
 	for len(b) > 16 && int(b[1]) != len(b)-len(payload) { // header length does not fit in a byte
+		tsKnown = false
 		tlvs = tlvs[:len(tlvs)-1]
 		b = c15Packet(ver, src, seq, tlvs, payload)
 	}
 	if r.Chance(5) { // header length mutated
+		tsKnown = false
 		b[1] = byte(r.Pick(0, 15, 16, int(b[1])+8, int(b[1])-8, 255, int(b[1])+1))
 	}
 	if r.Chance(8) { // payload length mutated
@@ -462,6 +486,7 @@ func c15Structured(r *Rng, tier string) ([]byte, int, int) {
 		b[4+r.Intn(4)] ^= byte(1 << uint(r.Intn(8))) // magic broken
 	}
 	if r.Chance(6) && len(b) > 0 { // truncated
+		tsKnown = false
 		b = b[:r.Intn(len(b)+1)]
 	}
 	if r.Chance(25) { // the UDP receiver hands over a buffer longer than the datagram
@@ -470,7 +495,25 @@ func c15Structured(r *Rng, tier string) ([]byte, int, int) {
 	if wordlen*nchan > 0 {
 		nfr = nbytes / (wordlen * nchan)
 	}
-	return b, nfr, nchan
+	if !tsKnown {
+		wantTS = "?"
+	}
+	return b, nfr, nchan, wantTS
+}
+
+// c15Counter draws a 64-bit timestamp counter: mostly with some of the top 16 bits set, plus the boundaries.
+func c15Counter(r *Rng) uint64 {
+	switch c := r.Intn(100); {
+	case c < 45:
+		return r.U64() | uint64(1)<<uint(r.Range(48, 63))
+	case c < 60:
+		return r.U64()
+	case c < 70:
+		return r.U64() >> uint(r.Pick(16, 17, 24, 40))
+	default:
+		return []uint64{1<<48 - 1, 1 << 48, 1<<48 + 1, 1 << 63, 1<<63 - 1, math.MaxUint64, math.MaxUint64 - 1,
+			0, 1, 1 << 47, 0xffff000000000000, 0x0001000000000000, 1 << 32, 1<<32 - 1}[r.Intn(14)]
+	}
 }
 
 // c15Malformed: the separate malformed stream.
@@ -512,7 +555,7 @@ func c15Malformed(r *Rng, tier string) []byte {
 		b := c15Header(1, byte(16+len(area)), uint16(len(pay)), c15Magic, 7, uint32(r.U64()))
 		return append(append(b, area...), pay...)
 	default: // a valid packet, cut at a random position or with flipped bits
-		b, _, _ := c15Structured(r, tier)
+		b, _, _, _ := c15Structured(r, tier)
 		if len(b) == 0 {
 			return b
 		}
@@ -586,6 +629,7 @@ func (s *c15Script) input() string {
 
 func (s *c15Script) run(reads []int, pseq uint32, pn int) string {
 	var p *packets.Packet
+	var cur *uint64 // the counter PUT IN by the last SetTimestamp still in effect
 	stopped := ""
 	res := c15Safe(func() string {
 		p = packets.NewPacket(s.ver, s.src, s.seq, s.off)
@@ -593,8 +637,11 @@ func (s *c15Script) run(reads []int, pseq uint32, pn int) string {
 			switch op.kind {
 			case "T":
 				p.SetTimestamp(&packets.PacketTimestamp{T: op.t, Rate: math.Float64frombits(op.rate)})
+				t := op.t
+				cur = &t
 			case "U":
 				p.ResetTimestamp()
+				cur = nil
 			case "C":
 				p.ClearData()
 			case "W":
@@ -638,13 +685,16 @@ func (s *c15Script) run(reads []int, pseq uint32, pn int) string {
 	if stopped != "" {
 		return stopped
 	}
-	sum := c15Summary(p)
+	sum := c15Summary(p, cur)
 	b := p.Bytes()
 	return sum + " B " + hexs(b) + " " + c15Decode(b, reads, pseq, pn)
 }
 
-// c15Summary renders the constructed packet as the real code sees it (the round-trip oracle compares against this).
-func c15Summary(p *packets.Packet) string {
+// c15Summary renders the constructed packet (the round-trip oracle compares against this): header fields, shape
+// and payload as the real code holds them; the timestamp counter is the value the harness PUT IN (`cur`, nil = no
+// timestamp), never what p.Timestamp() gives back -- an accessor that loses bits must not hide an encoder that
+// loses the same bits.
+func c15Summary(p *packets.Packet, cur *uint64) string {
 	ver, src := p.VerifHeader()
 	_, off := p.ChannelInfo()
 	sum := fmt.Sprintf("S v %d src %d seq %d off %d", ver, src, p.SequenceNumber(), off)
@@ -653,8 +703,8 @@ func c15Summary(p *packets.Packet) string {
 	} else {
 		sum += " sh -1"
 	}
-	if ts := p.Timestamp(); ts != nil {
-		sum += fmt.Sprintf(" ts %d", ts.T)
+	if cur != nil {
+		sum += fmt.Sprintf(" ts %d", *cur)
 	} else {
 		sum += " ts -1"
 	}
@@ -742,24 +792,32 @@ func (h *c15Hist) run() string {
 		b    []byte // NOT copied
 	}
 	var hs []held
+	var cur *uint64
 	stopped := ""
 	pan := c15Safe(func() string {
 		p := packets.NewPacket(h.ver, h.src, h.seq, h.off)
 		for i, st := range h.steps {
 			switch st.kind {
 			case "B":
-				sum := c15Summary(p)
+				sum := c15Summary(p, cur)
 				b := p.Bytes()
 				hs = append(hs, held{sum, hexs(b), b})
 			case "F":
 				q := p.MakePretendPacket(st.fseq, st.fchan)
-				sum := c15Summary(q)
+				sum := c15Summary(q, cur) // the copy carries the same timestamp
 				b := q.Bytes()
 				hs = append(hs, held{sum, hexs(b), b})
 			default:
 				if err := c15ApplyOp(p, st.op); err != nil {
 					stopped = fmt.Sprintf("Z %d", i)
 					return ""
+				}
+				switch st.op.kind {
+				case "T":
+					t := st.op.t
+					cur = &t
+				case "U":
+					cur = nil
 				}
 			}
 		}
@@ -806,7 +864,7 @@ func c15GenHist(r *Rng) *c15Hist {
 		return c15HStep{kind: "O", op: op}
 	}
 	mkT := func() c15HStep {
-		return c15HStep{kind: "O", op: c15Op{kind: "T", t: r.U64() >> uint(r.Pick(0, 16, 40)), rate: math.Float64bits(r.pickRate())}}
+		return c15HStep{kind: "O", op: c15Op{kind: "T", t: c15Counter(r), rate: math.Float64bits(r.pickRate())}}
 	}
 	if r.Chance(90) {
 		h.steps = append(h.steps, mkW(nfr))
@@ -866,10 +924,7 @@ func c15GenScript(r *Rng, tier string) (*c15Script, int, int) {
 		switch c := r.Intn(100); {
 		case c < 22:
 			rate := []float64{1e9, 256e6, 250e8, 1.25e8, 1e6, 1, 3.7e11, 1e3, 5e11, 123456.789}[r.Intn(10)]
-			t := r.U64()
-			if r.Chance(25) {
-				t = uint64(r.Pick(0, 1)) - uint64(r.Pick(0, 1))
-			}
+			t := c15Counter(r)
 			s.ops = append(s.ops, c15Op{kind: "T", t: t, rate: math.Float64bits(rate)})
 		case c < 27:
 			s.ops = append(s.ops, c15Op{kind: "U"})
@@ -960,7 +1015,7 @@ func c15GenScript(r *Rng, tier string) (*c15Script, int, int) {
 // ---------------------------------------------------------------------------------------------
 // fixed regression cases
 
-const c15NHot = 25
+const c15NHot = 28
 
 func c15Hot(idx int) (string, func() string, bool) {
 	fmtTLV := func(f string) []byte { return c15TLV(0x21, []byte(f)) }
@@ -1061,6 +1116,20 @@ func c15Hot(idx int) (string, func() string, bool) {
 		h.steps = append(h.steps, c15HStep{kind: "F", fseq: 9999, fchan: 4})
 		in := fmt.Sprintf("%s R %s PS %d PN %d", h.input(), ints([]int{}), 1, 1)
 		return in, h.run, true
+	case 25: // raw 0x13 TLV carrying a full 64-bit counter: the decoded Timestamp() must give all 64 bits
+		ts := c15TLV(0x13, append([]byte{64, 0xf5, 0, 4, 0, 1}, c15be64(0xfedcba9876543210)...))
+		b := c15Packet(3, 9, 100, [][]byte{off, ts, fmtTLV("<h"), c15ShapeTLV([]int{4})}, pay)
+		reads := []int{0, 1}
+		in := fmt.Sprintf("D %s TS %d R %s PS %d PN %d", hexs(b), uint64(0xfedcba9876543210), ints(reads), 77, 4)
+		return in, func() string { return c15Decode(b, reads, 77, 4) }, true
+	case 26: // raw 0x11 TLV (no unit) whose 16-bit high part is non-zero: counter = 48 bits << 16
+		ts := c15TLV(0x11, []byte{0xab, 0xcd, 1, 2, 3, 4})
+		b := c15Packet(3, 9, 100, [][]byte{off, ts, fmtTLV("<h"), c15ShapeTLV([]int{4})}, pay)
+		reads := []int{0, 1}
+		in := fmt.Sprintf("D %s TS %d R %s PS %d PN %d", hexs(b), uint64(0xabcd01020304)<<16, ints(reads), 77, 4)
+		return in, func() string { return c15Decode(b, reads, 77, 4) }, true
+	case 27: // constructed packet with counter 2^48 (one bit above what uint16<<32 + uint32 can carry)
+		return scr(&c15Script{ver: 1, src: 2, seq: 3, ops: []c15Op{wop(16, []int16{2}, 4), {kind: "T", t: 1 << 48, rate: math.Float64bits(1e9)}}})
 	case 23: // ClearData then Bytes
 		return scr(&c15Script{ver: 1, src: 2, seq: 3, ops: []c15Op{wop(32, []int16{2}, 4), {kind: "C"}}})
 	}
@@ -1083,10 +1152,10 @@ func c15Gen(r *Rng, tier string, idx int) (string, func() string) {
 	}
 	switch c := r.Intn(100); {
 	case c < 48:
-		b, nfr, nchan := c15Structured(r, tier)
+		b, nfr, nchan, wantTS := c15Structured(r, tier)
 		reads := c15Reads(r, nfr)
 		pn := c15PN(r, nchan)
-		in := fmt.Sprintf("D %s R %s PS %d PN %d", hexs(b), ints(reads), pseq, pn)
+		in := fmt.Sprintf("D %s TS %s R %s PS %d PN %d", hexs(b), wantTS, ints(reads), pseq, pn)
 		return in, func() string { return c15Decode(b, reads, pseq, pn) }
 	case c < 70:
 		b := c15Malformed(r, tier)
